@@ -31,3 +31,27 @@ syntax (name := auditCmd) "#audit " ident " [" ident,* "]" : command
         ("kind", Json.str kind)]
       logInfo m!"AUDIT {j.compress}"
   | _ => throwUnsupportedSyntax
+
+/-- `#audit_ns C12 Sqljson.C12` audits every theorem whose name lies directly in the namespace. -/
+syntax (name := auditNsCmd) "#audit_ns " ident ident : command
+
+@[command_elab auditNsCmd] def elabAuditNs : CommandElab := fun stx => do
+  match stx with
+  | `(#audit_ns $prop $ns) =>
+    let env ← getEnv
+    let nsName := ns.getId
+    let mut names : Array Name := #[]
+    for (n, ci) in env.constants.toList do
+      if n.getPrefix == nsName && !n.isInternal then
+        match ci with
+        | .thmInfo _ => names := names.push n
+        | _ => pure ()
+    for declName in names.qsort (fun a b => a.toString < b.toString) do
+      let some ci := env.find? declName | continue
+      let axs ← liftCoreM <| Lean.collectAxioms declName
+      let axStrs := axs.toList.map (fun a => a.toString) |>.toArray.qsort (· < ·)
+      let j := Json.mkObj [("property", Json.str prop.getId.toString), ("name", Json.str declName.toString),
+        ("axioms", Json.arr (axStrs.map Json.str)), ("hash", Json.str (toString ci.type.hash)),
+        ("kind", Json.str "theorem")]
+      logInfo m!"AUDIT {j.compress}"
+  | _ => throwUnsupportedSyntax
